@@ -163,6 +163,11 @@ func c18(r *core.Report) {
 		}
 	}
 
+	// ---- C18-DISTANCE (shared with C19-CMP-SHAPE): "sheds the farthest first" rests on the bucket index
+	// being the number of leading zero bits of locus^key and on the distance order
+	r.Rule("C18-DISTANCE", "LeadingZeros counts 8 bits per byte skipped; DistanceCmp is the byte-wise order of XOR distances", 6)
+	ruleCmpShape(r, "C18-DISTANCE")
+
 	// ---- C18-INDEX-PURE: an entry is found again only if its bucket index is a function of (locus, key)
 	// alone: bucketIndex computes the distance in a buffer it allocates itself (zero beyond the shorter
 	// operand) and writes nothing that outlives the call
